@@ -96,12 +96,34 @@ def _classify_index(ctx, f, arg, upd, sop, ft):
             if res and res <= {"all"}:
                 return "all"
             return None
+    if isinstance(arg, ast.Subscript):
+        # `dispatched_to[node_type]` with dispatched_to = {MACHINE: sop.machine_id, JOB: sop.job_id}
+        tbl = ctx.norm.xexpr(f, arg.value)
+        if isinstance(tbl, ast.Dict) and tbl.values and all(
+            ast.unparse(v).endswith((".machine_id", ".job_id")) and ast.unparse(v).split(".")[0] == sop for v in tbl.values
+        ):
+            return "dispatched"
     t = ast.unparse(arg)
     if t in (f"{sop}.machine_id", f"{sop}.job_id", f"{sop}.operation.job_id") and f is upd:
         return "dispatched"
     if t.endswith(".machine_id") or t.endswith(".job_id"):
         return "dispatched"
     return None
+
+
+def _episode_restore(ctx, fi) -> bool:
+    """``fi`` is a method the pinned tree does not have and every call of it in
+    the package comes from the ``reset`` of a graph updater: what it does to the
+    mask happens between episodes, where the pinned tree replaces the whole graph."""
+    from ..baseline_api import PUBLIC_CALLABLES
+    from .common import only_called_from
+
+    key = (fi.cls.name + "." if fi.cls is not None else "") + fi.name
+    if key in PUBLIC_CALLABLES or isinstance(fi.node, ast.Lambda):
+        return False
+    gu = ctx.repo.find_class("GraphUpdater")
+    resets = {m for c in ctx.repo.subclasses(gu.qualname) for m in [c.methods.get("reset")] if m is not None}
+    return bool(resets) and only_called_from(ctx, fi, resets)
 
 
 def run(ctx):
@@ -159,6 +181,17 @@ def run(ctx):
                 if isinstance(t, ast.Attribute):
                     if fi.name == "__init__" and fi.cls is g:
                         chk.ok("R17.a", fi.qualname, fi.loc(n), "mask initialised")
+                    elif _episode_restore(ctx, fi):
+                        vx = ctx.norm.xexpr(fi, v)
+                        if isinstance(vx, (ast.Attribute, ast.Name)):
+                            chk.violation(
+                                "R17.a", fi, n,
+                                f"the mask installed for the new episode is `{ast.unparse(vx)}` itself, not a copy: the removals of that episode are "
+                                "written into the kept snapshot, and the episode after it starts with those nodes already removed",
+                                loc=fi.loc(n),
+                            )
+                        else:
+                            chk.ok("R17.a", fi.qualname, fi.loc(n), "mask replaced as a whole by a step that only the graph updaters' reset runs (a new episode)")
                     else:
                         chk.violation("R17.a", fi, n, "the removed-nodes mask is rebound: removals are forgotten", loc=fi.loc(n))
                 elif (fi is rm or only_called_from(ctx, fi, {rm})) and isinstance(v, ast.Constant) and v.value is True:
@@ -400,7 +433,31 @@ def run(ctx):
     if "self.remove_completed_machine_nodes" in src and "self.remove_completed_job_nodes" in src:
         chk.ok("R17.c", upd.qualname, upd.loc(), "machine/job removal follows the configured options")
     else:
-        chk.violation("R17.c", upd, None, "machine/job node removal ignores the remove_completed_* options")
+        # the options may have been folded into state computed once (`self._removable_node_types`, built from both)
+        via = None
+        for x in own_nodes(ctx.norm.flat(upd, depth=3).node):
+            if isinstance(x, ast.Attribute) and isinstance(x.value, ast.Name) and x.value.id == upd.params[0] and isinstance(x.ctx, ast.Load):
+                srcs = [(f_, v_) for f_, v_ in lc.attr_sources(upd_cls, x.attr) if v_ is not None]
+                def _closure_text(f_, v_):
+                    seen_, work_, out_ = set(), [v_], ""
+                    while work_:
+                        cur_ = work_.pop()
+                        out_ += ast.unparse(cur_) + " "
+                        for y in ast.walk(cur_):
+                            if isinstance(y, ast.Name) and y.id not in seen_:
+                                seen_.add(y.id)
+                                work_ += [d_[1] for d_ in ctx.flow.defs(f_).of(y.id) if d_[0] == "value" and d_[1] is not None]
+                    return out_
+                txt = " ".join(_closure_text(f_, v_) for f_, v_ in srcs)
+                pm = repo.method(upd_cls, x.attr)
+                if pm is not None and pm.is_property and not isinstance(pm.node, ast.Lambda):
+                    txt += " " + ast.unparse(pm.node)  # a (private) property computed from the options
+                if "remove_completed_machine_nodes" in txt and "remove_completed_job_nodes" in txt:
+                    via = x.attr
+        if via is not None:
+            chk.ok("R17.c", upd.qualname, upd.loc(), f"machine/job removal follows the configured options (through self.{via})")
+        else:
+            chk.violation("R17.c", upd, None, "machine/job node removal ignores the remove_completed_* options")
 
     # ---------------------------------------------------------------- R17.d
     look = g.methods.get("get_node_by_type_and_id")
